@@ -380,7 +380,7 @@ func c19Run(ctx *rt.Ctx) []*rt.Violation {
 	add(c19Args{Cols: 1, Records: 0}, 1)
 	outs := rt.RunJobs(ctx, jobs, rt.SpawnOpt{})
 	vs := rt.Collect(ctx, outs, nil)
-	ctx.Cov.Note("rule", "CSV files written by encoding/csv: headers from {A, 'b c', x1, É, '', Ab} (1 column; every ordered pair that stays distinct after normalisation), fields from {'', a, 'a,b', 'q\"q', 'l1\\nl2', é}; every file of the stated shape is run through the real `updog create` and `updog create --big`; the output must open, equal the model (schema with the naming rule, universe, every value count, group-by per column, joint group-by over all columns = multiset of records), and `updog schema` must exit 0; 7 malformed inputs and 3 pre-existing-output cases must exit non-zero leaving an existing output byte-identical; non-trivial = files with at least one record, and the malformed inputs")
+	ctx.Cov.Note("rule", "CSV files written by encoding/csv: headers from {A, 'b c', x1, É, '', Ab} (1 column; every ordered pair that stays distinct after normalisation), fields from {'', a, 'a,b', 'q\"q', 'l1\\nl2', é}; every file of the stated shape is run through the real `updog create` and `updog create --big`; the output must open, equal the model (schema with the naming rule, universe, every value count, group-by per column, joint group-by over all columns = multiset of records), and `updog schema` must exit 0; raw well-formed inputs with unquoted leading blanks / tabs in header and records (kept by a default csv reader); malformed inputs (ragged records, bare quotes, a bare quote after a blank, empty file, unterminated quote) and 3 pre-existing-output cases must exit non-zero leaving an existing output byte-identical; non-trivial = files with at least one record, and the malformed inputs")
 	ctx.Assumef("encoding/csv defines well-formedness; row order is observable only up to what counting queries can distinguish (the joint distribution of all columns)")
 	return vs
 }
